@@ -18,6 +18,6 @@ def run(ctx):
         for a in range(6):
             jobs.append(Job("c11.py", "h_check", {"cfg": c, "arg": a, "quiet_fixed": ctx.quick()}, T, 60, tag=f"check cfg{c} reached-as#{a}", meta={"sigtag": "check-vs-scan", "tolerant": True, "twin": c == 0 and a == 0}))
     jobs.append(Job("c03.py", "h_decode", {}, T, 30, tag="decoding: bytes<=3"))
-    jobs.append(Job("c11.py", "h_check_real", {"cfg": 0}, T, 60, tag="real pipeline on both sides: 6 sample files (markers, comments, Latin-1) x 6 ways of reaching", meta={"sigtag": "check-vs-scan:real"}))
+    jobs.append(Job("c11.py", "h_check_real", {"cfg": 0}, T, 60, tag="real pipeline on both sides: 9 sample files (markers, comments, Latin-1, BOM, coding cookie) x 6 ways of reaching", meta={"sigtag": "check-vs-scan:real"}))
     ctx.bounds = {"trees": "as C11 (D1, D2 from 14 directory names, F3 from 13 file names)", "ways of reaching": ["file", "parent", "grandparent", "root-rel", "root-abs", "parent-abs"], "configurations": list(cfgs), "bytes": "every byte string of length <= 3"}
     ctx.run_xh(jobs)
